@@ -9,7 +9,7 @@ from concurrent.futures import ThreadPoolExecutor
 def run_all(wt, only=None):
     """all 19 properties in one process (shared facts and partial-evaluation results); -> {prop: (rc, keys, rules, undecided)}"""
     import os, re, subprocess
-    env = dict(os.environ, FQR_GEOM_ALL="1")
+    env = dict(os.environ) if not os.environ.get("SEED_GEOM_ALL") else dict(os.environ, FQR_GEOM_ALL="1")
     cmd = ["/verif/check", "ALL", "--repo", wt] + (["--only", ",".join(sorted(only))] if only else [])
     c = subprocess.run(cmd, capture_output=True, text=True, cwd="/verif", env=env)
     out = {}
